@@ -20,7 +20,7 @@ from machines.memview import View, handlers as mem_handlers
 PID = "C15"
 RULE = (
     "loops with S in {2,3,4} (thorough: 5) stages, first stage DM or compute (alternating), stage-0 input a tile of A indexed by the induction variable or the whole A, last "
-    "output a tile of O or the whole O, optional extra read-only operand on a compute stage; the buffer between stage 0 and 1 a local allocation or a tile of an argument (variants mi..mwhole), an input tile selected by the loop's own lower-bound value (ilb); bounds (0,N,1) for N in 0..6, (1,5,1), (0,6,2), (2,6,1), each with "
+    "output a tile of O or the whole O, optional extra read-only operand on a compute stage; the buffer between stage 0 and 1 a local allocation or a tile of an argument (variants mi..mwhole), an input tile selected by the loop's own lower-bound value (ilb), the loop as inner loop of a nest with outer trip count 2 / 3 merged by pipeline-canonicalize-for (nest2, nest3); bounds (0,N,1) for N in 0..6, (1,5,1), (0,6,2), (2,6,1), each with "
     "constant bounds or a run-time upper bound / lower bound / step; all interleavings of DM and compute core between barriers. distinct = distinct (loop, bounds, outcome set); "
     "non-trivial = the pipeline was constructed (IR changed)"
 )
@@ -44,7 +44,10 @@ LOOPS_MORE = [(0, 7, 1), (0, 8, 1), (1, 1, 1), (3, 2, 1), (0, 7, 3), (1, 8, 2)]
 # skip: the compute stage 2 additionally reads the buffer stage 0 wrote (producer and consumer two stages apart; needs S >= 3 and a compute stage 2)
 # mwhole: stage 0 writes tile i of M, the compute stage 1 reads the WHOLE of M (one index-dependent and one loop-invariant view of one buffer)
 # ilb: the input tile is selected by the very SSA value that is the loop's lower bound (a shared constant, as after CSE) instead of by %i
-MIDS = ["alloc", "mi", "mc", "mi2", "mc2", "lv", "late", "trail", "skip", "mwhole", "ilb"]
+# nest2 / nest3: the loop is the inner loop of a nest with outer trip count 2 / 3 (tile index = 4 * outer + inner); pipeline-canonicalize-for runs
+# first and merges the nest into one loop when the bounds are constant, lb = 0 and step = 1 (the other bounds stay nests and must be left intact)
+MIDS = ["alloc", "mi", "mc", "mi2", "mc2", "lv", "late", "trail", "skip", "mwhole", "ilb", "nest2", "nest3"]
+NEST_STRIDE = 4
 SV0 = "memref<1xi32, strided<[1]>>"
 
 
@@ -58,13 +61,15 @@ def space(tier):
                         for loop in LOOPS + (LOOPS_MORE if tier == "thorough" else []):
                             for dyn in (0, 1, 2, 4):
                                 for mid in MIDS:
-                                    if mid != "alloc" and tier == "quick" and (extra or dyn or loop[1] not in (0, 2, 3, 5)):
+                                    if mid != "alloc" and tier == "quick" and (extra or dyn or loop[1] not in ((0, 1, 2, 3, 4) if mid.startswith("nest") else (0, 2, 3, 5))):
                                         continue
                                     if mid == "skip" and (S < 3 or first != "C"):
                                         continue
                                     if mid == "mwhole" and first != "D":
                                         continue
                                     if mid == "ilb" and inkind != "tile":
+                                        continue
+                                    if mid.startswith("nest") and (loop[1] > NEST_STRIDE or (inkind == "whole" and outkind == "whole")):
                                         continue
                                     if dyn in (2, 4) and tier == "quick" and (extra or loop not in ((0, 5, 1), (2, 6, 1), (0, 6, 2), (0, 0, 1))):
                                         continue
@@ -120,16 +125,27 @@ def build(case):
         else:
             names[nm] = "%" + nm
             lines.append(f"  %{nm} = arith.constant {val} : index")
+    iv = "%i"
+    if mid.startswith("nest"):
+        lines.append("  %olb = arith.constant 0 : index")
+        lines.append(f"  %oub = arith.constant {int(mid[4:])} : index")
+        lines.append("  %ost = arith.constant 1 : index")
+        lines.append(f"  %ostride = arith.constant {NEST_STRIDE} : index")
+        lines.append("  scf.for %o = %olb to %oub step %ost {")
+        iv = "%idx"
     lines.append(f"  scf.for %i = {names['lb']} to {names['ub']} step {names['st']} {{")
+    if mid.startswith("nest"):
+        lines.append("    %row = arith.muli %o, %ostride : index")
+        lines.append("    %idx = arith.addi %row, %i : index")
     # index ops
     src0 = ("%A1", MT1)
     dstl = ("%O1", MT1)
     if inkind == "tile":
-        lines.append(f"    %tin = memref.subview %A[{names['lb'] if mid == 'ilb' else '%i'}] [1] [1] : {MTT} to {SV}")
+        lines.append(f"    %tin = memref.subview %A[{names['lb'] if mid == 'ilb' else iv}] [1] [1] : {MTT} to {SV}")
         src0 = ("%tin", SV)
     if outkind == "tile":
         if mid != "late":
-            lines.append(f"    %tout = memref.subview %O[%i] [1] [1] : {MTT} to {SV}")
+            lines.append(f"    %tout = memref.subview %O[{iv}] [1] [1] : {MTT} to {SV}")
         dstl = ("%tout", SV)
     if inkind == "whole" and outkind == "whole" and mid == "alloc":
         lines.append("    %dummy = arith.addi %i, %i : index")
@@ -172,6 +188,8 @@ def build(case):
         lines.append(f'      "memref.copy"(%W, %O1) {{verif.id = 20 : i32}} : ({MT1}, {MT1}) -> ()')
         lines.append("    }")
     lines.append("  }")
+    if mid.startswith("nest"):
+        lines.append("  }")
     text = "builtin.module {\nfunc.func @f(" + ", ".join(args) + ") {\n" + "\n".join(lines) + "\n  func.return\n}\n}\n"
     argv = ["A", "O", "W", "A1", "O1", "M"]
     if dyn:
@@ -262,13 +280,13 @@ def evaluate(case) -> CaseResult:
         raise RuntimeError(f"generator bug: {e}\n{text}")
     out = base.clone()
     try:
-        common.run_pipeline(out, PIPE)
+        common.run_pipeline(out, ("pipeline-canonicalize-for," if mid.startswith("nest") else "") + PIPE)
     except Exception as e:
         r.rejected = "pipeline:" + type(e).__name__
         r.count("exc:" + type(e).__name__ + ":" + str(e)[:70])
         return r
     probe = base.clone()
-    common.run_pipeline(probe, "construct-pipeline")
+    common.run_pipeline(probe, ("pipeline-canonicalize-for," if mid.startswith("nest") else "") + "construct-pipeline")
     constructed = any(op.name == "pipeline.pipeline" for op in probe.walk())
     r.nontrivial = constructed
     r.count("pipelines_constructed", int(constructed))
@@ -302,7 +320,10 @@ def evaluate(case) -> CaseResult:
         r.violate(key + "|use-before-def", case_j, f"use before def in the pipelined code: {e}; case {case}")
         return r
     # tiles outside the original iteration range
-    legal = set(range(lb, ub, st)) | {t[1] for e in ref_ev if e[0] == "op" for t in e[2] + e[3] if t[0] == "M"}
+    legal = set(range(lb, ub, st))
+    if mid.startswith("nest"):
+        legal = {o * NEST_STRIDE + j for o in range(int(mid[4:])) for j in range(lb, ub, st)}
+    legal = legal | {t[1] for e in ref_ev if e[0] == "op" for t in e[2] + e[3] if t[0] == "M"}
     for c, l in enumerate(lists):
         for e in l:
             if e[0] != "op":
@@ -312,6 +333,13 @@ def evaluate(case) -> CaseResult:
                 if len(idxs) == 1 and idxs[0] not in legal:
                     r.violate(key + "|out-of-range", case_j, f"core {c}: op {e[1]} {kindname} tile {idxs[0]} which is outside the iteration range {sorted(legal)}; case {case}")
                     break
+    # a tile far outside the range (already reported above) still needs an initial content for the exploration to continue
+    for l in lists:
+        for e in l:
+            if e[0] == "op":
+                for t in tuple(e[2]) + tuple(e[3]):
+                    if t not in init and t[0] in ("A", "O", "M"):
+                        init[t] = ("init",) + tuple(t)
     finals, problems, nstates, ntrans, multi = CM.explore(lists, init)
     r.states += nstates
     r.transitions += ntrans
